@@ -208,6 +208,11 @@ def merge_val(c, a, b):
         return z3.If(c, z3.Const(fresh_name('hv'), b.sort()), b)
     if is_unk(b) and isz(a):
         return z3.If(c, a, z3.Const(fresh_name('hv'), a.sort()))
+    # the same for structured domain values that know how to havoc their other side (keep(c): equal to the value when c holds, fresh otherwise)
+    if is_unk(a) and hasattr(b, 'keep_when'):
+        return b.keep_when(z3.Not(c))
+    if is_unk(b) and hasattr(a, 'keep_when'):
+        return a.keep_when(c)
     if isz(a) and isz(b):
         if a.sort() == b.sort():
             return a if z3.eq(a, b) else z3.If(c, a, b)
